@@ -22,6 +22,13 @@ CHECKS = {
          "sender: every legal padding/inner padding is accepted bit-exactly, insider malformations (good MAC bad padding, zero-only TLS 1.3 inner plaintext, wrong outer type, overflow) raise the documented exceptions.",
          "in-memory transport; incomplete trailing records are 'blocked' (C17); reference sender validated in C09 self-test",
          "DESIGN.md §4 C02"),
+ "C03": ("exploration",
+         "property-based testing over a constructed settings lattice; oracle = view-vector equality + independent policy-containment model",
+         "Pairs of HandshakeSettings restrictions (versions, ciphers, MACs, key exchanges, groups, signature lists, key-size windows, EtM/EMS, record_size_limit) x flavour (11 server key types, SRP, SRP+cert, anon) "
+         "x client auth x ALPN/NPN/SNI are constructed with drawn relations (equal/nested/independent); completed handshakes must yield identical view vectors (version, suite, secrets, exporter output, EMS, EtM, ALPN/NPN, SNI, chains, SRP user) "
+         "and every negotiated parameter must lie in both raw policies per an independent model using the IANA table; failed handshakes must fail with an alert on at least one side and never one-sidedly complete.",
+         "own credential type enabled in own settings (caller precondition); settings.versions never set directly; private _send/_recv_record_limit attributes read for the record-limit agreement",
+         "DESIGN.md §4 C03"),
  "C09": ("exploration",
          "property-based differential testing (Hypothesis) against independent reference implementations validated with the openssl CLI",
          "Every shipped pure-Python primitive and derivation function (AES-CBC/CTR, GCM, CCM/CCM-8, ChaCha20, Poly1305, ChaCha20-Poly1305, 3DES, RC4, HMAC, SSLv3/TLS1.0/TLS1.2 PRFs, "
